@@ -14,8 +14,14 @@ EXPECTED = {
         "if not 0 < tau < math.inf:\n    raise ValueError('Temperature must be positive and finite')",
     ],
     # softmax(logits / tau): subtracting the row maximum first is the identity on the reals (softmax is shift invariant)
+    # a temperature below the smallest positive number of the dtype is replaced by that number: x / tau is 0 or +-inf either way
+    # (on the reals: the identity for every temperature the dtype can represent)
+    "_representable_tau": [
+        "info = torch.finfo(like.dtype)",
+        "return max(tau, info.tiny * info.eps)",
+    ],
     "_softmax_tau": [
-        "return torch.nn.functional.softmax((logits - logits.max(-1, keepdim=True)[0]) / tau, dim=-1)",
+        "return torch.nn.functional.softmax((logits - logits.max(-1, keepdim=True)[0]) / _representable_tau(tau, logits), dim=-1)",
     ],
     "soft_raw": [
         "_check_temperature(tau)",
@@ -40,12 +46,12 @@ EXPECTED = {
     ],
     "soft_walsh": [
         "_check_temperature(tau)",
-        "return torch.sigmoid(logits / tau)",
+        "return torch.sigmoid(logits / _representable_tau(tau, logits))",
     ],
     # the threshold is applied to the form itself
     "hard_walsh": [
         "_check_temperature(tau)",
-        "x = torch.sigmoid(logits / tau)",
+        "x = torch.sigmoid(logits / _representable_tau(tau, logits))",
         "x = (logits > 0).to(torch.float32) - x.detach() + x",
         "return x",
     ],
@@ -54,7 +60,7 @@ EXPECTED = {
         "if not 0 < tau < math.inf:\n    raise ValueError('Temperature must be positive and finite')",
         "U = torch.rand_like(logits)",
         "logistic_noise = torch.log(U + 1e-20) - torch.log(1 - U + 1e-20)",
-        "y_soft = torch.sigmoid((logits + logistic_noise) / tau)",
+        "y_soft = torch.sigmoid((logits + logistic_noise) / _representable_tau(tau, logits))",
         "if hard:\n    if 0.0 < threshold < 1.0:\n        cut = tau * (math.log(threshold) - math.log1p(-threshold))\n        y_hard = (logits + logistic_noise > cut).float()\n"
         "    else:\n        y_hard = (y_soft > threshold).float()\n    return (y_hard - y_soft).detach() + y_soft",
         "return y_soft",
